@@ -212,6 +212,8 @@ lazy_static! {
 ^
 (
     \^?[0-9a-f]{4,40} # commit hash (^ is 'boundary commit' marker)
+    |
+    [\ ]{4,40}        # blank for a boundary commit under `git blame -b`
 )
 (?: [^(]+)?        # optional file name (unused; present if file has been renamed; TODO: inefficient?)
 [\ ]
